@@ -261,6 +261,46 @@ X3 = {
     'C18': ('the ignored states are the configured option on every way '
             'into the base query, thresholds come from a UTC clock', None),
 }
+# clauses added in rounds six and seven (rule ids in DESIGN Appendix B)
+X67 = {
+    'C01': 'collections a cached spec hands out and the caller edits are '
+           'built per call and kept nowhere',
+    'C02': 'the stored failure / cancel texts list tasks in an order the '
+           'definition fixes; the batches of completed tasks partition all '
+           'rows',
+    'C05': 'filters passed to the DB layer are never dropped; the '
+           'publishing on-clause is the one of the completion state; the '
+           'batches of completed tasks partition all rows; a re-run task '
+           'keeps its triggered_by while its policy context is cleared',
+    'C06': 'the redelivered flag survives the context round trip; the '
+           'duplicate-entry conversion is unconditional; results are sent '
+           'back without waiting',
+    'C08': 'a before-start policy that holds the task runs before those '
+           'that test for IDLE',
+    'C09': 'the direct and the RPC start of a sub-workflow agree and create '
+           'a fresh child; RPC clients send the arguments as given',
+    'C10': 'control attributes of backlogged commands are saved as they '
+           'are; an admin context lists sub-workflows of any project',
+    'C11': 'late completion of a delayed task is not conditioned on the '
+           'workflow state; post-commit operations are isolated one by one; '
+           'an admin context lists sub-workflows of any project; size limits '
+           'are applied in their unit',
+    'C12': 'a re-run task keeps its triggered_by while its policy context '
+           'is cleared; the rerun flags are forwarded unchanged',
+    'C13': 'every due job of the store is tried; the stored context is '
+           'always deserialisable and complete',
+    'C14': 'get_schema receivers never memoise a parent schema; conversions '
+           'of definition values fail as definition errors',
+    'C16': 'scope validation admits the literal values only',
+    'C17': 'one send per RPC request; only the compare-and-swap updates a '
+           'trigger',
+    'C19': 'the deny-list is re-iterable and its default covers the whole '
+           'loopback / link-local ranges',
+    'C20': 'the integrity check recovers with the latest child and is '
+           'scheduled for every non-negative delay; a truncated batch is not '
+           'combined with skipped rows',
+}
+
 NOT3 = {
     'C08': 'elapsed delays as quantities, timer/result races; the attempt '
            'bound is decided only as the shape "another attempt iff '
@@ -292,6 +332,8 @@ def main():
             decided += '; ' + X3[pid][0]
             if X3[pid][1]:
                 technique += ' + ' + X3[pid][1]
+        if pid in X67:
+            decided += '; ' + X67[pid]
         undecided = NOT3.get(pid, undecided)
         n_re = len([t for t in effects.TABLE if pid in t[0]])
         n_ra = len([t for t in args.TABLE if pid in t[0]])
